@@ -105,6 +105,7 @@ template <class K> static void c18_case(Ctx &ctx, bool thorough) {
     //      gap, repetition, wrong order) while its payload matches its declared count
     for (int i = 0, n = thorough ? 60 : 16; i < n; ++i) {
         RefVariant v; v.hostile = 1; v.max_split = 1 + (int)rng.below(4); if (rng.chance(1, 3)) { v.handle_offset = rng.chance(1, 2); v.widen = (int)rng.below(3); v.order = (int)rng.below(3); }
+        if (rng.chance(3, 4)) { uint64_t pick = rng.next(); RefVariant dry = v; dry.hostile_target = 1 << 30; Rng r2 = rng; (void)ref_encode(cm, dry, r2); v.hostile_target = (int)(pick % (uint64_t)std::max(1, dry.hostile_seen)); }
         std::string mut = ref_encode(cm, v, rng); Canon cx; std::string e2;
         if (v.hostile_desc.empty()) continue;
         ctx.cnt.add("c18.span-edits");
@@ -256,6 +257,8 @@ template <class K> static void c07_case(Ctx &ctx, int nmut) {
         else if (have_canon && i >= 4 && rng.chance(1, 4)) {
             // spans that overlap / overshoot / leave gaps / repeat, with payloads that match the declared counts
             RefVariant v = random_variant(); v.hostile = 1; if (rng.chance(1, 2)) { v = RefVariant(); v.hostile = 1; v.max_split = 1 + (int)rng.below(4); }
+            // mostly ONE inconsistency per file (a dry run counts the places where one can be put), sometimes several at once
+            if (rng.chance(3, 4)) { uint64_t pick = rng.next(); RefVariant dry = v; dry.hostile_target = 1 << 30; Rng r2 = rng; (void)ref_encode(cm, dry, r2); v.hostile_target = (int)(pick % (uint64_t)std::max(1, dry.hostile_seen)); }
             data = ref_encode(cm, v, rng); desc = "re-encoded with hostile spans: " + v.hostile_desc;
             ctx.cnt.add(v.hostile_desc.empty() ? "c07.inputs.reencoded-valid" : "c07.inputs.hostile-spans");
             if (rng.chance(1, 3)) { RefFile r2 = ref_parse(data); std::string d2; data = mutate_ovmb(data, r2, other, rng, d2); desc += d2; }
